@@ -328,11 +328,11 @@ def _part(draw):
 @st.composite
 def _desc(draw):
     dtype = draw(st.sampled_from(['float32', 'float64']))
-    box = draw(st.one_of(st.sampled_from(BOXES), st.sampled_from(BOXES), st.floats(0.01, 1e5, allow_nan=False, width=32 if draw(st.booleans()) else 64)))
+    box = draw(st.one_of(st.sampled_from(BOXES), st.sampled_from(BOXES), st.floats(0.015625, 65536.0, allow_nan=False, width=32), st.floats(0.015625, 65536.0, allow_nan=False, width=64)))
     nthread = draw(st.one_of(st.integers(1, 16), st.integers(1, 16), st.integers(1, 16), st.sampled_from([-1, 1, 2, 3, 5, 7, 15, 16])))
-    parts = draw(st.lists(_part(), min_size=0, max_size=24))
+    parts = draw(st.one_of(st.lists(_part(), min_size=0, max_size=4), st.lists(_part(), min_size=2, max_size=24)))
     nt_eff = 16 if nthread == -1 else nthread
-    bm = draw(st.sampled_from(['none', 'none', 'small', 'any', 'mult', 'mult']))
+    bm = draw(st.sampled_from(['none', 'small', 'small', 'any', 'mult', 'mult']))
     if bm == 'none':
         bulk = 0
     elif bm == 'small':
@@ -343,7 +343,7 @@ def _desc(draw):
         target = draw(st.integers(0, 18)) * nt_eff + draw(st.integers(-1, 1))
         bulk = max(0, min(300, target - len(parts)))
     n = len(parts) + bulk
-    npart = draw(st.one_of(st.integers(1, 8), st.integers(1, 64), st.sampled_from([1, 2, 3, 64]), st.integers(max(1, n), max(1, n) + 8), st.integers(65, 200)))
+    npart = draw(st.one_of(st.sampled_from([1, 2, 2, 3, 3, 4, 5, 7, 8, 16, 33, 64]), st.integers(2, 64), st.integers(2, 12), st.integers(max(1, n), max(1, n) + 8), st.integers(65, 200)))
     return dict(
         dtype=dtype, box=float(box), np=npart, coord=draw(st.integers(0, 2)),
         weights=draw(st.sampled_from(['none', 'none', 'index', 'index', 'index', 'rand', 'const'])),
